@@ -126,6 +126,12 @@ def real_retransmitted_request(ctx):
 
 def run(ctx, build):
     real_retransmitted_request(ctx)
+    # sources backed by a FAT image (what the boot server really serves): whole files through the real BootHandler with
+    # block sizes that do and do not divide the cluster size
+    from props import c07
+    c07.boards_overlap(ctx)
+    if ctx.violations:
+        return
     R = ctx.try_runner('Tftp')
     rng = ctx.rng
     nsess = 8000 if ctx.thorough else 120
